@@ -32,6 +32,10 @@ func init() {
 		raceLoadMain()
 		os.Exit(0)
 	}
+	if len(os.Args) > 1 && os.Args[1] == "c06tie" {
+		tieChildMain(os.Args[2:])
+		os.Exit(0)
+	}
 	if len(os.Args) > 1 && os.Args[1] == "c06static" { // debugging aid: the static verdict for $VERIF_REPO
 		t := extractConnTable()
 		fmt.Println("err:", t.Err, "notes:", t.Notes)
